@@ -71,6 +71,50 @@ fn main() {
                 println!("--- obs\n{}", obs);
             }
         }
+        "replay-e1" => {
+            // spec -> impl: execute TLC's E1 cases against the implementation
+            let tables: J = serde_json::from_str(&std::fs::read_to_string(m.get("tables").expect("--tables")).unwrap()).unwrap();
+            let cases: Vec<String> = std::fs::read_to_string(m.get("cases").expect("--cases")).unwrap().lines().map(|l| l.to_string()).collect();
+            let threads: usize = m.get("threads").and_then(|s| s.parse().ok()).unwrap_or(8);
+            let out = m.get("out").expect("--out").clone();
+            let chunk = (cases.len() + threads - 1) / threads.max(1);
+            let tables = std::sync::Arc::new(tables);
+            let cases = std::sync::Arc::new(cases);
+            let mut hs = Vec::new();
+            for t in 0..threads {
+                let tables = tables.clone();
+                let cases = cases.clone();
+                hs.push(std::thread::spawn(move || {
+                    let lo = t * chunk;
+                    let hi = ((t + 1) * chunk).min(cases.len());
+                    let mut mism: Vec<J> = Vec::new();
+                    let mut evals = 0usize;
+                    let mut direct = 0usize;
+                    for i in lo..hi {
+                        let c: J = serde_json::from_str(&cases[i]).unwrap();
+                        let (e, d, mm) = gv::e1::replay_case(&tables, &c);
+                        evals += e;
+                        direct += d;
+                        mism.extend(mm);
+                    }
+                    (evals, direct, mism)
+                }));
+            }
+            let mut evals = 0;
+            let mut direct = 0;
+            let mut f = std::io::BufWriter::new(std::fs::File::create(&out).unwrap());
+            let mut nm = 0;
+            for h in hs {
+                let (e, d, mm) = h.join().unwrap();
+                evals += e;
+                direct += d;
+                for x in mm {
+                    nm += 1;
+                    writeln!(f, "{}", x).unwrap();
+                }
+            }
+            println!("{}", json!({"cases": cases.len(), "evaluations": evals, "direct_relations": direct, "mismatches": nm}));
+        }
         "run" => {
             let rules = std::fs::read_to_string(m.get("rules").expect("--rules")).unwrap();
             let data = std::fs::read_to_string(m.get("data").expect("--data")).unwrap();
